@@ -531,6 +531,10 @@ impl Model {
         }
         let st: u16 = resp.map(|r| r.status).unwrap_or(0xffff);
         self.cell(info.kind, st, p);
+        if info.quiet && st == status::OK && matches!(info.kind, Kind::Set | Kind::Add | Kind::Replace | Kind::Append | Kind::Prepend | Kind::Incr | Kind::Decr | Kind::Delete | Kind::Flush) {
+            // C12: quiet mutations respond only on error
+            self.v("C12", "quiet-success-answered", format!("quiet {:?} (opcode {:#04x}) succeeded and was answered", info.kind, req.opcode));
+        }
         match info.kind {
             Kind::Get => self.apply_get(req, resp, p),
             Kind::Set => self.apply_set(req, resp, p),
